@@ -648,6 +648,15 @@ pub fn check(spec: &PropSpec, thorough: bool, base_seed: u64, max_runs: Option<u
     let _ = std::fs::create_dir_all(&p);
     p.push(format!("{prop}.json"));
     std::fs::write(&p, serde_json::to_string_pretty(&ev).unwrap()).unwrap();
+    if thorough {
+        // the evidence of the last thorough run is also kept aside (the main file is rewritten by every run)
+        let mut t = out_root();
+        t.push("evidence");
+        t.push("thorough");
+        let _ = std::fs::create_dir_all(&t);
+        t.push(format!("{prop}.json"));
+        let _ = std::fs::write(&t, serde_json::to_string_pretty(&ev).unwrap());
+    }
     println!(
         "{prop}: {} runs ({} directed), {} distinct non-trivial schedules, {} states, {} fingerprints ({} new), {:.1}s",
         evaluations, n_directed, nontrivial_sigs.len(), states.len(), by_fp.len(), new_violations, wall
